@@ -44,7 +44,7 @@ def comp(s):
 
 
 # ---- schema family ---------------------------------------------------------------------------------------------------
-def schema_ast(depth, shared, constrained):
+def schema_ast(depth, shared, constrained, two_roots=False):
     rules = [{'id': '#KEY', 'name': [{'lit': 'KEY'}, {'pat': '_'}, {'pat': '_'}, {'pat': '_'}], 'cons': [], 'sign': []},
              {'id': '#anchor', 'name': [{'lit': 'site'}, {'ref': '#KEY'}], 'cons': [], 'sign': []}]
     prev = '#anchor'
@@ -56,6 +56,10 @@ def schema_ast(depth, shared, constrained):
         prev = f'#l{i}'
     pat = 'u' if shared else 'ud'
     rules.append({'id': '#data', 'name': [{'lit': 'site'}, {'lit': 'data'}, {'pat': pat}, {'pat': '_'}], 'cons': [], 'sign': [prev]})
+    if two_roots:
+        # a second, independent root of trust that the (single) trust anchor does not match
+        rules.append({'id': '#anchor2', 'name': [{'lit': 'othersite'}, {'ref': '#KEY'}], 'cons': [], 'sign': []})
+        rules.append({'id': '#other', 'name': [{'lit': 'othersite'}, {'lit': 'data'}, {'pat': '_'}], 'cons': [], 'sign': ['#anchor2']})
     return {'rules': rules}
 
 
@@ -318,7 +322,7 @@ def _run(sim, case, r):
     validators = []
     for vi, vs in enumerate(case['validators']):
         h = hiers[vs['hier'] % len(hiers)]
-        sch = schema_ast(h.spec['depth'], h.spec['shared'], h.spec['constrained'])
+        sch = schema_ast(h.spec['depth'], h.spec['shared'], h.spec['constrained'], two_roots=vs.get('bad_anchor') == 'two-roots')
         text = L.render(sch, 0)
         try:
             checker = Checker(compile_lvs(text), {})
@@ -357,6 +361,24 @@ def _run(sim, case, r):
             pool.append((hi, label, name, wire))
     keys = set()
     classes = []
+    for pair in case.get('concurrent', []):
+        # the same validator instance validates two packets at the same time (both need the same uncached certificates)
+        vi = pair[0] % len(validators)
+        v, vh, sch = validators[vi]
+        items = [pool[pair[1] % len(pool)], pool[pair[2] % len(pool)]]
+        wants = [ref_validate(it[3], sch, vh.anchor_name, vh.spec['keys'][0], store,
+                              lambda k: policy.get(k, 'serve') == 'serve') for it in items]
+        gots = _validate_many(sim, v, [it[3] for it in items], r)
+        if gots is None:
+            return
+        for it, want, got in zip(items, wants, gots):
+            hm = any(K.KEYS[k]['kind'] not in ('ec', 'rsa') for k in hiers[it[0]].spec['keys'])
+            classes.append(f'concurrent:{it[1]}:{want}')
+            if got != want and not (hm and want and not got):
+                kind = 'accepts-invalid-chain' if got else 'rejects-valid-chain'
+                r.bad(f'C14/concurrent/{kind}/{it[1]}', f'validator {vi}: two validations at once, packet {it[1]}: got {got} want {want}')
+                return
+        keys.add(('concurrent', items[0][1], items[1][1], vh.spec['depth']))
     for step in case['order']:
         vi = step[0] % len(validators)
         v, vh, sch = validators[vi]
@@ -420,6 +442,32 @@ def _validate(sim, v, wire, r):
     return box['res']
 
 
+def _validate_many(sim, v, wires, r):
+    boxes = [{} for _ in wires]
+
+    async def go(i, wire):
+        name, _mi, _c, sig = parse_data(wire)
+        try:
+            boxes[i]['res'] = bool(await v(name, sig))
+        except Exception as e:
+            boxes[i]['exc'] = e
+
+    async def spawn_all():
+        return [asyncio.get_running_loop().create_task(go(i, w)) for i, w in enumerate(wires)]
+    ts = sim.vl.run(spawn_all())
+    for _ in range(40):
+        if all(t.done() for t in ts):
+            break
+        sim.vl.advance(0.5)
+    if not all(t.done() for t in ts):
+        for t in ts:
+            t.cancel()
+        sim.vl.settle()
+        r.bad('C14/concurrent/validation-does-not-terminate', '')
+        return None
+    return [b.get('res', False) for b in boxes]
+
+
 async def _spawn(coro):
     return asyncio.get_running_loop().create_task(coro)
 
@@ -445,14 +493,17 @@ def _case(draw):
         hiers.append(twin)
     nv = draw(st.integers(1, 3))
     validators = [{'hier': draw(st.integers(0, 1)),
-                   'bad_anchor': draw(st.sampled_from([None, None, None, None, None, 'not-self-signed', 'not-root']))}
+                   'bad_anchor': draw(st.sampled_from([None, None, None, None, None, None, 'not-self-signed', 'not-root', 'two-roots']))}
                   for _ in range(nv)]
     order = draw(st.lists(st.tuples(st.integers(0, 2), st.integers(0, 7)).map(list), min_size=1, max_size=6))
     if draw(st.booleans()):
         # the same packet validated by two different instances one after the other
         p = draw(st.integers(0, 7))
         order = order[:4] + [[0, p], [1, p]]
-    return {'hiers': hiers, 'validators': validators, 'order': order}
+    concurrent = draw(st.lists(st.tuples(st.integers(0, 2), st.integers(0, 7), st.integers(0, 7)).map(list), max_size=2))
+    if draw(st.booleans()):
+        concurrent = [[0, 0, 0]] + concurrent      # twice the good packet of the first hierarchy, before anything is cached
+    return {'hiers': hiers, 'validators': validators, 'order': order, 'concurrent': concurrent}
 
 
 SUBCHECKS = {
